@@ -172,6 +172,36 @@ def w_general(ctx, rng, i):
     ctx.bin("n_pol", n_pol)
 
 
+def w_deep(ctx, rng, i):
+    """the corner of the domain with the most steps: total nonlinear phase near 10 rad at phi_max near 5e-4 (> 10^4 adaptive steps).
+    The live probe checks every one of them; the energy law and convergence against the reference are asserted as well."""
+    fs = float(rng.choice([1.6e11, 3.2e11]))
+    with core.quiet():
+        T.gv(sps=8, fs=fs)
+    n = 128
+    n_pol = 1 + i % 2
+    peak = float(rng.uniform(0.1, 0.5))
+    x = make_field(rng, n, n_pol, peak, ["gauss_train", "nrz"][i % 2], fs)
+    L = float(rng.uniform(5, 40))
+    alpha = float(rng.uniform(0, 0.3)) if i % 3 else 0.0
+    a = alpha * math.log(10) / 10
+    Leff = (1 - math.exp(-a * L)) / a if a > 0 else L
+    gamma = min(5.0, float(rng.uniform(8.5, 9.9)) / (peak * Leff))
+    b2 = float(rng.uniform(3, 20)) * float(rng.choice([1, -1]))
+    phi = float(rng.uniform(5e-4, 7e-4))
+    ctx.describe(fs=fs, n=n, n_pol=n_pol, peak=peak, L=L, alpha=alpha, beta_2=b2, gamma=gamma, phi_max=phi, nonlinear_phase=gamma * peak * Leff)
+    with core.quiet():
+        y = D.FIBER(x, L, alpha, b2, 0.0, gamma, phi)
+    nsteps = len(_probe_stats.get("last", []))
+    ctx.check("deep.steps_observed", nsteps > 5000, f"probe saw only {nsteps} steps for a {gamma * peak * Leff:.2f} rad / phi_max={phi:.2g} run")
+    refsol, achieved, steps = ref.nlse_reference(x.signal, fs, L, alpha, b2, 0.0, gamma, tol=1e-7, nmax=2 ** 15)
+    if achieved <= 3e-6 and np.all(np.isfinite(y.signal)):
+        g_ = math.sqrt(np.sum(np.abs(refsol) ** 2) / max(np.sum(np.abs(y.signal) ** 2), 1e-300))
+        err = relL2(y.signal * g_, refsol)
+        ctx.check("nlse.converges", err <= 6 * phi * max(1.0, gamma * peak * Leff) + 1e-6, f"relative error {err:.3g} vs the NLSE reference at phi_max={phi:.3g} ({nsteps} steps, nonlinear phase {gamma * peak * Leff:.2f} rad)")
+    ctx.case(("deep", n_pol, round(gamma * peak * Leff), alpha > 0, b2 > 0), sample=dict(fs=fs, n_pol=n_pol, peak=peak, L=L, alpha=alpha, beta_2=b2, gamma=gamma, phi_max=phi, steps=nsteps) if i < 2 else None)
+
+
 def w_zero_input(ctx, rng, i):
     fs = set_fs(rng)
     n = int(rng.choice([64, 128]))
@@ -283,6 +313,7 @@ WORKLOADS = [
     Workload("spm", w_spm, 600, 6000, budget=60),
     Workload("onepol", w_onepol, 300, 4000, budget=90),
     Workload("converge", w_converge, 80, 1200, budget=300),
+    Workload("deep", w_deep, 8, 160, budget=300),
 ]
 
 
